@@ -145,6 +145,54 @@ def history(rid, cache_type, mask, out_sel1, cut_sel1, out_sel2, cut_sel2, full1
         L.cleanup_dirs()
 
 
+def special_values(cache_type, kind, a0, a1, a2, a3):
+    """cached vs uncached for (kind 0) NumPy arguments equal in memory but not in value, (kind 1) a cached
+    function whose result is None: no stale hit, and no re-execution for a repeated equal call"""
+    L.reset()
+    import numpy as np
+    from pipefunc import Pipeline, pipefunc
+
+    try:
+        a0, a1, a2, a3 = (L.concretize(x, 0, 1) for x in (a0, a1, a2, a3))
+        with NoTracing():
+            calls = []
+
+            def mk(cache):
+                @pipefunc(output_name="s", cache=cache)
+                def f(m):
+                    calls.append(cache)
+                    if kind == 1:
+                        return None if int(np.asarray(m).sum()) == 0 else int(np.asarray(m)[0][1])
+                    mm = np.asarray(m)
+                    return int(mm[0][0] + 2 * mm[0][1] + 4 * mm[1][0] + 8 * mm[1][1])
+
+                @pipefunc(output_name="t", cache=cache)
+                def g(s, m):
+                    return (s, int(np.asarray(m)[1][0]))
+
+                return Pipeline([f, g], cache_type=cache_type if cache else None, cache_kwargs=_cache_kwargs(cache_type) if cache else None)
+
+            pc, pu = mk(True), mk(False)
+        a = np.array([[a0, a1], [a2, a3]])
+        variants = [a, a.T, np.asfortranarray(a), a.T.copy(), a]
+        for m in variants:
+            with NoTracing():
+                n_before = len([c for c in calls if c])
+            if pc("t", m=m) != pu("t", m=m):
+                return fail("cached pipeline returned a different value for an array / None result")
+        if kind == 1:
+            with NoTracing():
+                n1 = len([c for c in calls if c])
+            pc("s", m=a)
+            with NoTracing():
+                n2 = len([c for c in calls if c])
+            if n2 != n1:
+                return fail("a cached function (result None) was re-executed for a repeated equal call")
+        return True
+    finally:
+        L.cleanup_dirs()
+
+
 def map_cache(tid, cache_type, n0, n1, n2, *vals):
     """Pipeline.map with a cache and repeated input values (sequential): results equal the denotation"""
     L.reset()
@@ -241,6 +289,13 @@ def obligations(tier):
                             canaries=("last_root_arg_missing_from_key",) if (rid, ct, region) == ("R2", "lru", "roots") and mask == (1 << nf) - 1 else (),
                         )  # fmt: skip
                     )
+    for ct in ctypes:
+        for kind in (0, 1):
+            obs.append(
+                Ob(f"special_{ct}_{'none' if kind else 'numpy'}", [(f"a{i}", I) for i in range(4)], [" and ".join(f"0 <= a{i} <= 1" for i in range(4))],
+                   f"H.special_values({ct!r}, {kind}, a0, a1, a2, a3)", timeout=300, flags=("tokpickle",) if ct == "disk" else (),
+                   bounds=f"cache {ct}: 2x2 int arrays (elements 0..1) passed as C-ordered, transposed view, Fortran copy; " + ("a cached function returning None" if kind else "position-weighted sum"))  # fmt: skip
+            )
     for tid in ("T2", "T3") + (("T4", "T8") if thorough else ()):
         t = T[tid]
         for ct in ("lru", "simple") + (("hybrid", "disk") if thorough else ()):
